@@ -83,7 +83,10 @@ func c12genConfig(rng *core.Rng) c12config {
 	if rng.Intn(4) != 0 {
 		cfg.Params = map[string]string{}
 		for n := rng.Intn(21); n > 0; n-- {
-			k := core.Pick(rng, []string{"application_name", "DateStyle", "TimeZone", "integer_datetimes", "standard_conforming_strings", "server_encoding", "client_encoding", "is_superuser", "session_authorization", "server_version", rng.Ident(1 + rng.Intn(12)), "ключ", "k " + rng.Ident(3)})
+			k := core.Pick(rng, []string{"application_name", "DateStyle", "TimeZone", "integer_datetimes", "standard_conforming_strings", "server_encoding", "client_encoding", "is_superuser", "session_authorization", "server_version", rng.Ident(1 + rng.Intn(12)), "ключ", "k " + rng.Ident(3),
+				// names that differ from PostgreSQL's own only in letter case: other names, to a protocol whose
+				// parameter names are case-sensitive byte strings
+				"datestyle", "timezone", "TIMEZONE", "Client_Encoding", "CLIENT_ENCODING", "Search_Path", "APPLICATION_NAME", "Server_Version", "integer_DateTimes", "intervalstyle", "Is_Superuser"})
 			cfg.Params[k] = core.Pick(rng, []string{"", "on", "UTF8", "LATIN1", "someone-else", "9.6", rng.Text(1+rng.Intn(30), true)})
 		}
 	}
